@@ -40,6 +40,10 @@ CHILDREN = {
     # the child SUCCEEDS with an output that is falsy in Python ([] {} 0 "" false null): still an output
     "falsy": ({"StartAt": "P", "States": {"P": {"Type": "Pass", "Parameters": {"v.$": "$.k"}, "OutputPath": "$.v", "End": True}}},
               "SUCCEEDED"),
+    # the child runs into its own execution time-out (TimeoutSeconds 2 inside a 6 s Wait): a failed child like any other
+    "timeout": ({"StartAt": "W", "TimeoutSeconds": 2,
+                 "States": {"W": {"Type": "Wait", "Seconds": 6, "Next": "T"},
+                            "T": {"Type": "Task", "Resource": F + "cwork", "End": True}}}, "FAILED"),
     "slow": ({"StartAt": "W", "States": {"W": {"Type": "Wait", "Seconds": 6, "Next": "T"},
                                          "T": {"Type": "Task", "Resource": F + "cwork", "Next": "T2"},
                                          "T2": {"Type": "Task", "Resource": F + "cwork2", "End": True}}}, "SUCCEEDED"),
@@ -105,7 +109,7 @@ def add(findings, rule, detail, witness=None):
 # ------------------------------------------------------------------------------------------
 def child_case(rng, seed):
     form = rng.choice(["async", "sync", "sync", "sync2", "sync2", "sdk"])
-    kind = rng.choice(["ok", "ok", "fail", "slow", "falsy"])
+    kind = rng.choice(["ok", "ok", "fail", "slow", "falsy", "timeout"])
     placement = rng.choice(["top", "top", "parallel", "map"])
     if kind == "falsy" and placement == "map":
         placement = "top"
@@ -230,13 +234,14 @@ def check_child(scn, meta, seed):
             if r.get("Status") != "SUCCEEDED" or r.get("Name") != cd["name"] or r.get("StateMachineArn") != SM % "child":
                 add(findings, "sync-result-fields", "Status/Name/StateMachineArn %r" % {k: r.get(k) for k in ("Status", "Name", "StateMachineArn")}, witness=form)
         else:
+            cerr = "States.Timeout" if kind == "timeout" else "E.Child"
             if meta["catch"]:
-                ok = pd["status"] == "SUCCEEDED" and "States.TaskFailed" in json.dumps(out) and "E.Child" in json.dumps(out)
+                ok = pd["status"] == "SUCCEEDED" and "States.TaskFailed" in json.dumps(out) and cerr in json.dumps(out)
             else:
-                ok = pd["status"] == "FAILED" and pd.get("error") == "States.TaskFailed" and "E.Child" in (pd.get("cause") or "")
+                ok = pd["status"] == "FAILED" and pd.get("error") == "States.TaskFailed" and cerr in (pd.get("cause") or "")
             if not ok:
-                add(findings, "sync-failure", "child failed with E.Child; parent ended %s error=%r cause=%r" % (
-                    pd["status"], pd.get("error"), (pd.get("cause") or "")[:200]), witness=form)
+                add(findings, "sync-failure", "child failed with %s; parent ended %s error=%r cause=%r" % (
+                    cerr, pd["status"], pd.get("error"), (pd.get("cause") or "")[:200]), witness=form)
     # completion instant for single synchronous child at top level
     if form != "async" and meta["placement"] == "top" and len(childs) == 1 and not (meta["timeout"] and kind == "slow"):
         term = [e for e in list(childs.values())[0] if e[0] != "RUNNING"]
@@ -277,6 +282,9 @@ def token_case(rng, seed):
         # NOT run the execution - the token names the reply queue of the one that does
         cfg.update(store="redis", nodes=2)
         api_node = 1
+        if rng.random() < 0.5:
+            # instance ids with dashes in them, as the UUID of the shipped configuration or a host name have
+            cfg["instance_ids"] = ["inst0-7c1e-4b", "inst1-9a2f-c0"]
     # the second task's own callback normally comes at t=5; with two instances it may instead arrive at the very instant
     # of the first task's (t=3), through the same front end, for a task that another instance may own
     t2_at = 3.0 if (api_node == 1 and stream in ("valid", "failure", "other-token") and rng.random() < 0.6) else 5.0
@@ -367,7 +375,8 @@ def check_token(scn, meta, seed):
                         kind="client", label="cb")
         if stream == "forged":
             def forged(t):
-                raw = "%s.waitForTaskToken:asl_workflow_reply_to-inst0" % "12345678-1234-4234-8234-123456789abc"
+                raw = "%s.waitForTaskToken:asl_workflow_reply_to-%s" % (
+                    "12345678-1234-4234-8234-123456789abc", (scn["config"].get("instance_ids") or ["inst0"])[0])
                 return base64.b64encode(raw.encode()).decode()
             sim.call_at(t0 + 3.0, send("SendTaskSuccess", forged, {"output": ok_out}, "forged"), None, kind="client", label="cb")
         if stream == "truncated":
